@@ -113,6 +113,10 @@ func (g *ruleGen) posArg(typ byte, pending *[][2]string) Term {
 	switch {
 	case r < 45 && len(g.bound[typ]) > 0:
 		return Var(rapid.SampledFrom(g.bound[typ]).Draw(g.t, "reuse"))
+	case r < 52 && len(*pending) > 0 && (*pending)[len(*pending)-1][0] == string(typ):
+		// the variable this very atom introduced in its previous column once more: e(X, X) with X not bound before
+		g.labels["repeated-var-in-atom"] = true
+		return Var((*pending)[len(*pending)-1][1])
 	case r < 85 || (typ != 'n' && typ != 'a' && r < 95):
 		v := g.fresh(typ)
 		*pending = append(*pending, [2]string{string(typ), v})
@@ -400,7 +404,7 @@ func genRule(t *rapid.T, o GenOpts, schema []PredInfo, h PredInfo, exitRule bool
 		nFil = rapid.IntRange(2, 4).Draw(t, "nFilterNegFront")
 	}
 	for i := 0; i < nFil; i++ {
-		kinds := []int{0, 0, 1, 1, 2, 3, 3, 3, 4}
+		kinds := []int{0, 0, 1, 1, 2, 3, 3, 3, 4, 5, 6}
 		if negFront {
 			kinds = []int{0, 1, 3, 3, 3, 3, 3, 3}
 		}
@@ -420,6 +424,27 @@ func genRule(t *rapid.T, o GenOpts, schema []PredInfo, h PredInfo, exitRule bool
 				filters = append(filters, EqLit(fn, other))
 			}
 			labels["eq-fn-filter"] = true
+			labels["fn"] = true
+		case kind == 5 && o.Cmp && o.Neg && len(g.bound['n']) > 0:
+			// a negated built-in comparison: !:lt(X, c), !:ge(X, Y)
+			pred := rapid.SampledFrom([]string{":lt", ":le", ":gt", ":ge"}).Draw(t, "negCmp")
+			l := Var(rapid.SampledFrom(g.bound['n']).Draw(t, "negCmpL"))
+			filters = append(filters, NegLit(Atom{Pred: pred, Args: []Term{l, g.boundArg('n')}}))
+			labels["neg-builtin"] = true
+			labels["cmp"] = true
+		case kind == 6 && o.Cmp && o.Arith && len(g.bound['n']) > 0:
+			// a comparison one of whose operands is a function expression over a bound variable
+			x := rapid.SampledFrom(g.bound['n']).Draw(t, "cfx")
+			guard(x)
+			fn := Fn(rapid.SampledFrom([]string{"fn:plus", "fn:minus", "fn:mult"}).Draw(t, "cffn"), Var(x), Num(rapid.Int64Range(0, 2).Draw(t, "cfk")))
+			op := rapid.SampledFrom([]string{"<", "<=", ">", ">="}).Draw(t, "cfOp")
+			if rapid.Bool().Draw(t, "cfFlip") {
+				filters = append(filters, CmpLit(op, g.boundArg('n'), fn))
+			} else {
+				filters = append(filters, CmpLit(op, fn, g.boundArg('n')))
+			}
+			labels["cmp-fn-operand"] = true
+			labels["cmp"] = true
 			labels["fn"] = true
 		case kind == 0 && o.Cmp && len(g.bound['n']) > 0:
 			op := rapid.SampledFrom([]string{"<", "<=", ">", ">="}).Draw(t, "cmpOp")
